@@ -172,6 +172,43 @@ def stats(ctx):
                         break
 
 
+def multi_recipient(ctx):
+    """General JSON encryptions with several key-agreement recipients, some on the same curve: one fresh ephemeral key
+    per recipient (Spec.D), pairwise distinct within and across messages."""
+    from joserfc import jwe
+    rng = ctx.rng
+    n = 12 if ctx.tier == "quick" else 200
+    pool = [("ECDH-ES+A128KW", "p256"), ("ECDH-ES+A128KW", "p256b"), ("ECDH-ES+A256KW", "x25519"), ("ECDH-ES+A192KW", "x25519b"),
+            ("ECDH-ES+A128KW", "p384"), ("A128KW", "oct16"), ("RSA-OAEP", "rsa2048")]
+    seen_epk = {}
+    for i in range(n):
+        recips = rng.sample(pool, rng.choice([2, 3, 4]))
+        if i % 3 == 0:
+            recips = [pool[0], pool[1]] + recips[:1]          # two recipients on P-256
+        elif i % 3 == 1:
+            recips = [pool[2], pool[3]]                        # two recipients on X25519
+        with E.Tape() as tape:
+            obj = jwe.GeneralJSONEncryption({"enc": "A128GCM"}, b"to many", aad=b"aad")
+            for alg, kn in recips:
+                obj.add_recipient({"alg": alg}, K.key(kn, private=False) if K._SPECS[kn][0] != "oct" else K.key(kn))
+            v = jwe.encrypt_json(obj, None, algorithms=E.ALL_NAMES)
+        ka = [r for r in recips if r[0].startswith("ECDH")]
+        ctx.count("multi-recipient", (i, repr(recips)), True, f"{len(ka)}-key-agreement")
+        if len(tape.ephemerals) != len(ka):
+            ctx.report(f"{len(tape.ephemerals)} ephemeral keys generated for {len(ka)} key-agreement recipients",
+                       {"recipients": recips}, "multi:ephemeral-count")
+        for j, ((alg, kn), r) in enumerate(zip(recips, v["recipients"])):
+            hdr = r.get("header", {})
+            where = f"message {i} recipient {j}"
+            if "epk" in hdr:
+                ekey = json.dumps(hdr["epk"], sort_keys=True)
+                if hdr["epk"].get("crv") != K._SPECS[kn][1]:
+                    ctx.report("ephemeral key not on the recipient's curve", {"epk": hdr["epk"], "key": kn}, "multi:epk-curve")
+                if ekey in seen_epk:
+                    ctx.report(f"the same ephemeral key is used for {seen_epk[ekey]} and {where}", {"recipients": recips, "epk": hdr["epk"]}, "multi:epk-reused")
+                seen_epk[ekey] = where
+
+
 def keygen(ctx):
     from joserfc.jwk import OctKey, RSAKey, ECKey, OKPKey, JWKRegistry
     n = 50 if ctx.tier == "quick" else 1000
@@ -220,6 +257,7 @@ def keygen(ctx):
 
 
 def run(ctx):
+    multi_recipient(ctx)
     tape_runs(ctx)
     stats(ctx)
     keygen(ctx)
